@@ -56,6 +56,9 @@ def main():
             body = ''.join(l for l in open(pf) if not l.startswith('# '))
             r = subprocess.run(['patch', '-p1', '-s', '-d', scratch], input=body, text=True, capture_output=True)
             if r.returncode != 0:
+                mj = os.path.join(os.path.dirname(pf), 'meta.json')
+                if os.path.exists(mj) and json.load(open(mj)).get('base_rev'):
+                    print('%-44s SKIPPED: applies to /repo at %s only (see meta.json)' % (os.path.relpath(pf, VERIF), json.load(open(mj))['base_rev'])); continue
                 print('%-40s PATCH DOES NOT APPLY: %s' % (os.path.basename(pf), r.stdout[:200])); bad += 1; continue
             v = verdict(scratch)
         finally:
